@@ -37,3 +37,8 @@ Proof. exact C12_fits. Qed.
 Theorem C12_empty_value_refuted :
   exists c hist, run 4 f2_ops = Some (c, hist) /\ c_queue c = map fst (lastn 4 hist) /\ sizes (lastn 4 hist) = 5.
 Proof. exact F2_refutes_total. Qed.
+
+(* non-vacuity: a reachable state after six insertions into six bytes, three entries evicted, none empty *)
+Example C12_example : exists c hist, run 6 ex_ops = Some (c, hist) /\ NoEmptyStored hist /\ length hist = 6%nat /\
+  c_queue c = [4; 2; 1] /\ sizes (lastn 3 hist) = 5.
+Proof. destruct ring_sanity as [c [hist [H1 [H2 [H3 [H4 [_ [_ [_ [_ [_ [_ H5]]]]]]]]]]]]. exists c, hist. repeat split; assumption. Qed.
